@@ -141,6 +141,8 @@ def jobs(tier, seed):
     out = []
     for j in c02.jobs(tier, seed):
         j = dict(j)
+        if tier == "quick" and j["label"].startswith("L3:") and c02.heavy(j["args"]["mnems"], strict=True):
+            continue
         j["harness"] = "stale"
         j["module"] = "checks.c08"
         out.append(j)
